@@ -176,7 +176,7 @@ def _has_call(node):
 
 def truth(v):
     if isinstance(v, str):
-        return v
+        return 'U' if v == 'N' else v       # 'N': some value that is not None (truthiness unknown)
     if isinstance(v, C):
         return 'T' if v.v else 'F'
     if isinstance(v, D):
@@ -375,7 +375,7 @@ class Interp:
                 return truth(self.ev(e.args[0], st, ctx))
             if isinstance(f, ast.Name) and f.id in IDENTITY_FUNCS and len(e.args) > IDENTITY_FUNCS[f.id]:
                 v = self.ev(e.args[IDENTITY_FUNCS[f.id]], st, ctx)
-                return v if isinstance(v, D) else 'U'
+                return v if isinstance(v, D) else 'N'      # a decoded / decrypted payload is never None
             if isinstance(f, ast.Name) and f.id == "int" and len(e.args) == 1:
                 v = self.ev(e.args[0], st, ctx)
                 if isinstance(v, C) and isinstance(v.v, str) and v.v.isdigit():
@@ -439,7 +439,7 @@ class Interp:
                 t = truth(l)
                 if isinstance(l, C):
                     res = 'T' if l.v is None else 'F'
-                elif t == 'T' or isinstance(l, (D, FS, FL, TUP, METH)):
+                elif t == 'T' or l == 'N' or isinstance(l, (D, FS, FL, TUP, METH)):
                     res = 'F'
                 else:
                     res = 'U'
@@ -959,7 +959,7 @@ class Interp:
             s2 = s2.cp()
             s2[k] = vv if isinstance(vv, C) and isinstance(vv.v, int) else 'U'
             return s2
-        if vv == 'U':
+        if vv in ('U', 'N'):
             vv = 'T'   # T3: values stored into nullable attributes are non-empty objects
         if isinstance(vv, C) and not (vv.v is None or isinstance(vv.v, bool)):
             vv = 'T' if vv.v else 'F'
@@ -1067,7 +1067,14 @@ class Interp:
                 s2 = s
                 for t in targets:
                     if isinstance(t, ast.Name):
-                        l2[t.id] = v
+                        vl = v
+                        if not isinstance(v, C) and isinstance(stmt.value, ast.Call):
+                            # `result = WrongPasswordError()`: an exception object held in a local keeps its name
+                            fn_ = stmt.value.func
+                            nm = fn_.id if isinstance(fn_, ast.Name) else (fn_.attr if isinstance(fn_, ast.Attribute) else "")
+                            if nm.endswith(("Error", "Exception")):
+                                vl = C(nm + "()")
+                        l2[t.id] = vl
                     elif isinstance(t, ast.Attribute) and isinstance(t.value, ast.Name) and t.value.id == "self":
                         if (ctx.cls.name, t.attr) in SYMBOLIC and ('a', ctx.cls.name, t.attr) in s2:
                             sym = self._symbolic(stmt.value, v)
